@@ -234,26 +234,88 @@ func streamFraming(e *Env, rule, rel string) {
 		f := calleeOf(info, call)
 		return esp.Is(f, pkgProto, "RequestHeader", "ContentLength") || esp.Is(f, pkgProto, "ResponseHeader", "ContentLength")
 	}
-	ast.Inspect(fi.Decl.Body, func(n ast.Node) bool {
-		if as, ok := n.(*ast.AssignStmt); ok && len(as.Lhs) == 1 && len(as.Rhs) == 1 && isHdrLen(as.Rhs[0]) && lenVar == nil {
-			lenVar = usedVar(info, as.Lhs[0])
-		}
-		return true
-	})
+	// lenOf: the local of a function that is assigned from Header.ContentLength()
+	lenOf := func(body *ast.BlockStmt) *types.Var {
+		var v *types.Var
+		ast.Inspect(body, func(n ast.Node) bool {
+			if as, ok := n.(*ast.AssignStmt); ok && len(as.Lhs) == 1 && len(as.Rhs) == 1 && isHdrLen(as.Rhs[0]) && v == nil {
+				v = usedVar(info, as.Lhs[0])
+			}
+			return true
+		})
+		return v
+	}
+	lenVar = lenOf(fi.Decl.Body)
+	// the length may be computed by a helper of the package that returns its own such local
+	// (`contentLength := bodyStreamContentLength(resp)`): both locals then denote the framing
+	// length, and the helper is explored inline
+	lenVars := map[*types.Var]bool{}
+	lenHelpers := map[*types.Func]bool{}
 	if lenVar == nil {
-		r.Anchor(rule, "a variable assigned from Header.ContentLength() in "+fname)
+		ast.Inspect(fi.Decl.Body, func(n ast.Node) bool {
+			as, ok := n.(*ast.AssignStmt)
+			if !ok || len(as.Lhs) != 1 || len(as.Rhs) != 1 || lenVar != nil {
+				return true
+			}
+			c, ok := unparen(as.Rhs[0]).(*ast.CallExpr)
+			if !ok {
+				return true
+			}
+			d := w.DeclOf(calleeOf(info, c))
+			if d == nil || d.Pkg != fi.Pkg || d.Decl.Body == nil {
+				return true
+			}
+			hv := lenOf(d.Decl.Body)
+			if hv == nil {
+				return true
+			}
+			returnsIt := false
+			ast.Inspect(d.Decl.Body, func(m ast.Node) bool {
+				if rs, ok := m.(*ast.ReturnStmt); ok && len(rs.Results) == 1 && usedVar(info, rs.Results[0]) == hv {
+					returnsIt = true
+				}
+				return true
+			})
+			if returnsIt {
+				lenVar = usedVar(info, as.Lhs[0])
+				lenVars[hv] = true
+				lenHelpers[d.Obj] = true
+			}
+			return true
+		})
+	}
+	if lenVar == nil {
+		r.Anchor(rule, "a variable assigned from Header.ContentLength() (directly or by a helper that returns it) in "+fname)
 		return
 	}
+	lenVars[lenVar] = true
+	isLenVar := func(e ast.Expr) bool { v := usedVar(info, e); return v != nil && lenVars[v] }
 	counts := map[string]int{}
 	rl := &esp.Rule{Name: rule, Init: str(st{hdr: "none", body: "none"}),
-		Track: func(k string) bool { return k == "err == nil" || k == lenVar.Name()+" >= 0" || k == lenVar.Name()+" < 0" },
+		Track: func(k string) bool {
+			if k == "err == nil" {
+				return true
+			}
+			for v := range lenVars {
+				if k == v.Name()+" >= 0" {
+					return true
+				}
+			}
+			return false
+		},
+		Inline: func(f *types.Func, d *ast.FuncDecl) bool { return lenHelpers[f] },
 		Node: func(c *esp.Ctx, n ast.Node) {
 			as, ok := n.(*ast.AssignStmt)
 			if !ok {
 				return
 			}
 			for i, l := range as.Lhs {
-				if usedVar(info, l) == lenVar {
+				if isLenVar(l) {
+					if len(as.Rhs) == len(as.Lhs) {
+						if call, ok := unparen(as.Rhs[i]).(*ast.CallExpr); ok && lenHelpers[calleeOf(info, call)] {
+							continue // the helper's own local carried the state; it was explored inline
+						}
+					}
 					s := parse(c.S.TS)
 					s.agree = len(as.Rhs) == len(as.Lhs) && isHdrLen(as.Rhs[i])
 					c.S.TS = str(s)
@@ -265,7 +327,7 @@ func streamFraming(e *Env, rule, rel string) {
 			site := fname + ":" + c.SiteKey(call)
 			switch {
 			case f != nil && f.Name() == "SetContentLength" && (esp.Is(f, pkgProto, "RequestHeader", "SetContentLength") || esp.Is(f, pkgProto, "ResponseHeader", "SetContentLength")) && len(call.Args) == 1:
-				if usedVar(info, call.Args[0]) == lenVar {
+				if isLenVar(call.Args[0]) {
 					s.agree = true
 				} else if v, ok := constInt(info, call.Args[0]); ok && v == -1 {
 					s.chunkAnn = true
@@ -290,7 +352,14 @@ func streamFraming(e *Env, rule, rel string) {
 				}
 			case esp.Is(f, pkgExt, "", "WriteBodyFixedSize"):
 				counts["WriteBodyFixedSize"]++
-				ok := len(call.Args) == 3 && refersTo(info, call.Args[2], lenVar)
+				ok := false
+				if len(call.Args) == 3 {
+					for v := range lenVars {
+						if refersTo(info, call.Args[2], v) {
+							ok = true
+						}
+					}
+				}
 				if s.hdr != "fixed" || !ok {
 					c.Violate(call.Pos(), site+":fixed-mismatch", "a fixed-size body is written but the header on this path does not announce that same length (header state "+s.hdr+"): Content-Length and the bytes sent disagree")
 				}
